@@ -61,6 +61,11 @@ fn(H2 + "._handle_events", params={"events": "obj pyvc:H2Events"}, task="reader"
        # C01/C09: every DATA frame is acknowledged for flow control with its flow-controlled
        # length, whether or not its stream still exists (otherwise the connection window drains)
        ("C09.ack", "implies(isinstance(event, h2.events.DataReceived), trace_any('h2', 'x', x[0] == 'ack' and x[1] == event.stream_id and x[2] == event.flow_controlled_length))", "C09,C04,C01"),
+       # C18.ka.h2: one more than keep_alive_max_requests are served, then the peer is told to go away
+       ("C18.ka.h2", "implies(isinstance(event, h2.events.RequestReceived) and self.keep_alive_requests > self.config.keep_alive_max_requests, trace_any('h2', 'x', x[0] == 'close_connection'))", "C18"),
+       ("C18.ka.h2.not-early", "implies(isinstance(event, h2.events.RequestReceived) and self.keep_alive_requests <= self.config.keep_alive_max_requests, not trace_any('h2', 'x', x[0] == 'close_connection'))", "C18"),
+       # C15.h2: once shutdown has begun new streams are refused and the limit drops to zero
+       ("C15.h2.refuse", "implies(isinstance(event, h2.events.RequestReceived) and trace_any('h2', 'x', x[0] == 'reset_stream'), trace_any('h2', 'x', x[0] == 'update_settings'))", "C15"),
    ]}},
    props=("C04",))
 
@@ -88,3 +93,14 @@ fn(H2 + "._create_server_push", params={"stream_id": "int", "path": "bstr", "hea
    raises={"h2.ProtocolError": None}, props=("C04",))
 fn(H2 + ".initiate", params={"headers": "opt hdrs", "settings": "opt str"}, task="reader", props=("C04", "C13"))
 fn(H2 + ".idle", params={}, returns="bool", modifies=[], props=("C07",))
+
+fn(H2 + ".__init__",
+   params={"app": "opaque", "config": "obj hypercorn.config:Config", "context": "obj hypercorn.typing:WorkerContext", "task_group": "obj hypercorn.typing:TaskGroup",
+           "connection_state": "opaque", "ssl": "bool", "client": "opaque", "server": "opaque", "send": "opaque"},
+   ensures=[
+       ("C18.h2.settings", "self.connection.local_settings.initial_values[lib_h2.settings.SettingCodes.MAX_CONCURRENT_STREAMS] == config.h2_max_concurrent_streams "
+        "and self.connection.local_settings.initial_values[lib_h2.settings.SettingCodes.MAX_HEADER_LIST_SIZE] == config.h2_max_header_list_size", "C18"),
+       ("C18.h2.frame", "self.connection.DEFAULT_MAX_INBOUND_FRAME_SIZE == config.h2_max_inbound_frame_size", "C18"),
+       ("H2.init", "not self.closed and self.keep_alive_requests == 0", "C18"),
+   ],
+   props=("C18",))
